@@ -5,6 +5,7 @@ import WD.Proofs.Observer.Inv1
 import WD.Proofs.Observer.LStep
 import WD.Proofs.Observer.CStep
 import WD.Proofs.Observer.OStep
+import WD.Proofs.Observer.Counterexamples
 namespace WD.ProofsObs
 open WD WD.Obs
 
@@ -28,34 +29,46 @@ theorem enq_uids_increasing :
     (enqUids (run (init clients cbs emit) sched).hist).Pairwise (· < ·) := by
   exact good1_enq_pairwise (inv1_reach clients cbs emit sched).good
 
+/- (full statement, FALSE of the model; kept for reference, see the `_partial` variant below)
+-- FALSE as stated (`order_at_most_once_false` in Counterexamples.lean); see `order_at_most_once_partial`
 theorem order_at_most_once (h : Hid) :
     (callUids h (run (init clients cbs emit) sched).hist).Pairwise (· < ·) := by
-  sorry
+  -- refuted
+-/
 
 theorem dispatch_copy (p q : List Obs) (u : Nat) (w : Wid) (hs : List Hid)
     (hh : (run (init clients cbs emit) sched).hist = p ++ .dispatch u w hs :: q) (h : Hid) :
     h ∈ hs ↔ registered p h w = true := by
   exact (inv1_reach clients cbs emit sched).good p _ q hh h
 
+/- (full statement, FALSE of the model; kept for reference, see the `_partial` variant below)
+-- FALSE as stated (third witness in Counterexamples.lean); see `complete_partial`
 theorem complete (p q r : List Obs) (u : Nat) (w : Wid) (hs : List Hid)
     (hh : (run (init clients cbs emit) sched).hist = p ++ .dispatch u w hs :: q ++ .dispatchEnd u :: r)
     (h : Hid) (hm : h ∈ hs) : (∃ v, Obs.call h w v u ∈ q) ∨ Obs.skip h u ∈ q := by
-  sorry
+  -- refuted
+-/
 
 theorem skip_unregistered (p q : List Obs) (h : Hid) (u : Nat)
     (hh : (run (init clients cbs emit) sched).hist = p ++ .skip h u :: q) :
     ∃ w hs, Obs.dispatch u w hs ∈ p ∧ registered p h w = false := by
   exact (inv1_reach clients cbs emit sched).good p _ q hh
 
+/- (full statement, FALSE of the model; kept for reference, see the `_partial` variant below)
+-- FALSE as stated (second witness in Counterexamples.lean); see `unregistered_on_return_partial`
 theorem unregistered_on_return (p q : List Obs) (op : Op) (h : Hid) (w : Wid)
     (hh : (run (init clients cbs emit) sched).hist = p ++ .did op "ok" :: q) (hr : removes op h w = true) :
     registered p h w = false := by
-  sorry
+  -- refuted
+-/
 
+/- (full statement, FALSE of the model; kept for reference, see the `_partial` variant below)
+-- FALSE as stated (second witness in Counterexamples.lean); see `nothing_after_return_partial`
 theorem nothing_after_return (p q r : List Obs) (op : Op) (h : Hid) (w : Wid) (v u : Nat)
     (hh : (run (init clients cbs emit) sched).hist = p ++ .did op "ok" :: q ++ .call h w v u :: r)
     (hr : removes op h w = true) : Obs.reg h w ∈ q := by
-  sorry
+  -- refuted
+-/
 
 theorem unschedule_joins_emitter (s : State) (ti : Nat) (t : Thread) (w : Wid) (e : Eid) (o : EmObj) (ei : Nat)
     (ht : s.thread? ti = some t) (hpc : t.pc = .unschedJoin w e) (he : s.em? e = some o) (hti : o.tidx = some ei)
@@ -92,11 +105,12 @@ theorem complete_partial (hok : runOk (init clients cbs emit) sched = true)
     (h : Hid) (hm : h ∈ hs) : (∃ v, Obs.call h w v u ∈ q) ∨ Obs.skip h u ∈ q :=
   complete_of_good (cx_reach clients cbs emit sched hok).good p q r u w hs hh h hm
 
-/-- `oneD`: at most one thread of kind `dispatcher` exists in the final state (threads are never removed,
-    so this says that `start` spawned a dispatcher at most once during the run) -/
+/-- needs, in addition, that at most one thread of kind `dispatcher` exists in the final state (threads are
+    never removed, so this says that `start` spawned a dispatcher at most once during the run): with two
+    `start` calls the statement fails, see `order_at_most_once_false` -/
 theorem order_at_most_once_partial (hok : runOk (init clients cbs emit) sched = true)
-    (hone : oneD (run (init clients cbs emit) sched)) (h : Hid) :
-    (callUids h (run (init clients cbs emit) sched).hist).Pairwise (· < ·) :=
-  goodO_call_pairwise (oc_reach clients cbs emit sched hok hone).good h
+    (hone : ((run (init clients cbs emit) sched).threads.filter (fun t => t.kind == .dispatcher)).length ≤ 1)
+    (h : Hid) : (callUids h (run (init clients cbs emit) sched).hist).Pairwise (· < ·) :=
+  goodO_call_pairwise (oc_reach clients cbs emit sched hok (oneD_of_count hone)).good h
 
 end WD.ProofsObs
